@@ -480,6 +480,18 @@ class SeqMixin:
         ids = {v.get_id() for v in vs}
         return any(c.get_id() in ids for c in _consts(t))
 
+    def finite_domain_of(self, g):
+        """the values the elements of a generator view can take, when they all are symbolic grid-object classes or
+        members of one enum; None otherwise"""
+        elems = [p.elem for p in g.parts]
+        if elems and all(isinstance(e, SClass) for e in elems):
+            om = self.objmodel
+            return [SClass(om.cls_consts[c.name]) for c in om.classes]
+        if elems and all(isinstance(e, EnumVal) for e in elems) and len({e.cls.qualname for e in elems}) == 1:
+            cls = elems[0].cls
+            return [cls.enum_members[n] for n in cls.enum_canon]
+        return None
+
     def gen_member(self, g, x):
         alts = []
         for p in self.rename_parts(g):
@@ -776,6 +788,19 @@ class SeqMixin:
             return len(v)
         if isinstance(v, GenList):
             return self.fview(v)['n']
+        if isinstance(v, SSet):
+            # a set view whose elements range over a finite domain (grid-object classes, members of an enum): its
+            # size is the number of domain values that occur
+            dom = self.finite_domain_of(v.gen)
+            if dom is not None:
+                total = 0
+                for d in dom:
+                    m = self.truth_term(self.gen_member(v.gen, d))
+                    if m is True:
+                        total = total + 1
+                    elif m is not False:
+                        total = total + z3.If(zbool(m), 1, 0)
+                return concretize(total) if is_z3(total) else total
         if isinstance(v, ClassModel) and v.is_enum:
             return len(v.enum_canon)
         if isinstance(v, Instance):
